@@ -44,6 +44,20 @@ CLAIMED = {
         "technique": "Coq proof (group theory + modular arithmetic + DER/BIP66 lemmas) + checked model/code correspondence",
         "design": "DESIGN.md section 8 / C01",
     },
+    "C02": {
+        "text": "Machine-checked proof (Coq 8.16.1) about the model of ecmath.verify / utils.sig_verify / utils.point / ensure_sig_low_s: for "
+                "a curve point Q, verify returns True exactly when r,s in [1,n-1] and x(z/s G + r/s Q) mod n = r (textbook equation, "
+                "transcribed), it NEVER returns a falsy success for any input (every other case raises), out-of-range r/s raise "
+                "AssertionError; sig_verify says OK exactly when the DER part decodes to (r,s), the key is a valid SEC1 point and the "
+                "equation holds for HASH256(msg||flag) (arbitrary hash) - so any alteration is accepted only if the altered tuple "
+                "satisfies the equation; (r, n-s) is accepted iff (r, s) is; the low-S helper returns strict BIP66 DER with the same r and "
+                "the low representative of s. Correspondence: valid signatures with bit flips, range boundaries, s->n-s, digests >= n, "
+                "crafted infinity sums, malformed keys/DER, OpenSSL verdicts on secp256k1; ALL tuples sampled/enumerated on small curves.",
+        "note": "PARTIAL for secp256k1: curve_facts(_x) are hypotheses there (proved by computation on the small curves). sha256 "
+                "arbitrary. Trusted: Coq kernel, extraction, harness, hashlib, OpenSSL as extra oracle.",
+        "technique": "Coq proof (iff with the textbook verification equation, modular arithmetic, DER/BIP66) + checked correspondence",
+        "design": "DESIGN.md section 8 / C02",
+    },
     "C11": {
         "text": "Machine-checked proof (Coq 8.16.1): for every well-formed transaction, input index, amount < 2^64, scriptCode, version, "
                 "locktime and each of the six standard sighash types, the model of bip143.witness_message (slicing the serialised inputs "
